@@ -34,7 +34,7 @@ def main():
     seed = int(os.environ.get("VERIF_SEED", "1"))
     mod = importlib.import_module("props." + pid.lower())
     ctx = Ctx(pid, tier, seed)
-    ev_path = os.path.join(VERIF, "evidence", pid + ".json")
+    ev_path = os.path.join(os.environ.get("VERIF_EVIDENCE_DIR") or os.path.join(VERIF, "evidence"), pid + ".json")   # seeded-change runs write elsewhere
 
     if replay:
         return mod.replay(ctx, json.load(open(replay)))
